@@ -680,7 +680,7 @@ pub fn run_all(ctx: &mut Ctx, replay: Option<&Path>) {
     }
     ctx.regressions(&k);
     ctx.regressions(&p);
-    ctx.random(&k, case_strategy(), ctx.tier.pick(40_000, 400_000));
+    ctx.random(&k, case_strategy(), ctx.tier.pick(150_000, 800_000));
     let draws = ctx.tier.pick(4000, 20_000);
     let seeds = ctx.tier.pick(2, 10);
     let base = ctx.derive_seed("pressure");
